@@ -535,8 +535,8 @@ def tag23(frames, flags=0):
     return b"ID3\x03\x00" + bytes([flags]) + syncsafe(len(frames)) + frames
 
 
-def tag22(frames):
-    return b"ID3\x02\x00\x00" + syncsafe(len(frames)) + frames
+def tag22(frames, flags=0):
+    return b"ID3\x02\x00" + bytes([flags]) + syncsafe(len(frames)) + frames
 
 
 def frame24(fid, body, fl=0):
@@ -836,12 +836,15 @@ class Runner:
             n22 = self.base22.get(target.__name__)
             if n22 and len(body3) < 2 ** 24:
                 variants.append(("v2.2-input", tag22(frame22(n22.encode(), body3)), True, got3))
+                fr2 = frame22(n22.encode(), body3)
+                # ID3v2.2 section 3.1: bit 7 of the flags = unsynchronisation of the whole tag
+                variants.append(("v2.2-tag-unsynchronised-input", tag22(ref_unsynch(fr2), 0x80), ref_unsynch(fr2) != fr2, got3))
         for label, data, nontrivial, ref in variants:
             st, got = self.load_one(data)
             ctx.case(key=(name, enc, v, label), nontrivial=nontrivial)
             ctx.hist["framing:" + label] += 1
             case = {"frame": name, "repr": repr(fr)[:400], "enc": enc, "variant": v, "framing": label, "tag": hx(data[:400])}
-            if name in ("CHAP", "CTOC") and label in ("tag+frame-unsynchronised-input", "v2.3-tag-unsynchronised-input"):
+            if name in ("CHAP", "CTOC") and label in ("tag+frame-unsynchronised-input", "v2.3-tag-unsynchronised-input", "v2.2-tag-unsynchronised-input"):
                 case["klass"] = "nested-double-unsynch"
             if st != "ok":
                 ctx.violation("%s:%s" % (name, label), "re-framed input: %s %r" % (st, got), case)
